@@ -2824,7 +2824,10 @@ def c07_gen(tier, rng):
             cases.append(("TREE\t" + hexs(src), {"kind": "ws-char", "src": src, "ws": 0x20, "ref": ref}))
             cases.append(("TREE\t" + hexs(ref), {"kind": "ws-ref", "src": ref}))
     for src, ref in (('1e-"3"', '1e - "3"'), ('2.5e+"7"', '2.5e + "7"'), ('a 1E-"0"', 'a 1E - "0"'), ('1e-(3)', '1e - (3)'), ('1e+true', '1e + true'), ('xe-3', 'xe - 3'),
-                     ('price-tax', 'price - tax'), ('1e-3e', '1e - 3e'), ('(1e)-3', '( 1e ) - 3')):
+                     ('price-tax', 'price - tax'), ('1e-3e', '1e - 3e'), ('(1e)-3', '( 1e ) - 3'),
+                     ('-9223372036854775808', '- 9223372036854775808'), ('a * -9223372036854775808', 'a * - 9223372036854775808'), ('(-9223372036854775808)', '( - 9223372036854775808 )'),
+                     ('-9223372036854775808 ^ 2', '- 9223372036854775808 ^ 2'), ('x = -09223372036854775808', 'x = - 09223372036854775808'), ('!-9223372036854775808', '! - 9223372036854775808'),
+                     ('-9223372036854775807', '- 9223372036854775807'), ('-0x8000000000000000', '- 0x8000000000000000'), ('--9223372036854775808', '- - 9223372036854775808')):
         cases.append(("TREE\t" + hexs(src), {"kind": "ws-char", "src": src, "ws": 0x20, "ref": ref}))
         cases.append(("TREE\t" + hexs(ref), {"kind": "ws-ref", "src": ref}))
     # characters that are NOT whitespace must not separate
